@@ -81,6 +81,11 @@ theorem c18_cmd_tags_distinct :
 
 example : ∃ f ∈ functions, ∃ r, cmdFieldFor f.key = some r ∧ r.idx ≥ 2 := by decide +kernel
 
+/-- `util.IsNil` decides whether a selectors / elements argument is absent; its only caller is the filter
+    builder, which the harness drives with every nil form. A new caller is new glue to be covered. -/
+theorem c18_isnil_callers : isNilCallers = ["spine/function_data_cmd.go:filtersForSelectorsElements"] := by
+  decide
+
 /-! ## G2 — selector and elements tags -/
 
 /-- A selectors field exists for the function where the data model defines one, the code's own lookup
